@@ -96,8 +96,8 @@ def castAll (ext : Ext) : List Py → VR (List Num)
     | .nonfinite => .error .nonfinite
     | .crash k => .error (.py k)
 
-/-- `isinstance(item, (Blank, type(None)))`: a BLANK object (a reference to a never-stored cell) or
-    Python `None` (the padding of a ragged Array) -/
+/-- `isinstance(item, (Blank, type(None)))`: a BLANK object (an empty member of a range, a reference to
+    a never-stored cell) or Python `None` (the padding of a ragged Array) -/
 def isBlankObj : Py → Bool
   | .none => true
   | .xBlank => true
@@ -236,7 +236,14 @@ def SUMPRODUCT (ext : Ext) (args : List Arg) : VR Num :=
       | some c => .error (.xl c)
       | none => (columnsOf ext arrays).map fun cols => sumNum ((zipCols cols).map prodNum)
 
-/-! ### `RangeNode.eval`: the Array of a range -/
+/-! ### `RangeNode.eval`: the Array of a range
+
+  The cells of a range are the typed values `Evaluator.evaluate` returns for its members (a native
+  value a function without return annotation hands back is cast to its Excel type first).
+  `ModelCompiler.build_ranges` creates every member that is not stored as `XLCell(addr, None)`: an
+  empty member evaluates to BLANK (`S.blank`); a cell explicitly set to `''` (`set_cell_value`)
+  evaluates to `Text('')` (`S.text []`).  Both are "empty" for the run counting below; in the number
+  lists the BLANK is skipped (`isBlankObj`) and the `Text('')` fails the cast and is dropped. -/
 
 /-- a typed cell value as the Python object the evaluator hands on -/
 def typedPy : S → Py
